@@ -5,7 +5,7 @@ From Coq Require Import ZArith NArith List Bool.
 Import ListNotations.
 From Coq Require Import QArith.
 From AV Require Import model.Syntax model.Lexer model.Grammar model.Literal model.Display model.Rat model.UnitTypes model.Map
-  model.Units model.Compound model.UnitWord model.Eval model.Cbor model.Codec model.Cli model.DbProto.
+  model.Units model.Compound model.UnitWord model.Eval model.Cbor model.Codec model.Cli model.DbProto model.Index model.Find gen.Shipped.
 Open Scope Z_scope.
 
 Definition zs_of_chars (s : list chr) : list Z := map Z.of_N s.
@@ -175,6 +175,37 @@ Definition obs_dbproto (input : list Z) : list Z :=
   | _ => [-1]
   end.
 
+(* tag 12: which document answers a lookup: input = the best-scored candidates of a query as position (in the translated shipped
+   data, insertion order) and score bits, in any order; output = the position of the document a build by the translated writer
+   answers with, and what the translated shipped data holds there: numerator, denominator, the search words *)
+Fixpoint pairs_of (l : list Z) : list (N * Z) :=
+  match l with p :: s :: r => (Z.to_N p, s) :: pairs_of r | _ => [] end.
+Definition obs_winner (input : list Z) : list Z :=
+  match winner (pairs_of input) with
+  | None => [-1]
+  | Some p =>
+      match nth_error shipped (N.to_nat p) with
+      | None => [-2]
+      | Some (ws, (n, d), _, _) => [Z.of_N p; n; d; Z.of_nat (length ws)] ++ flat_map (fun w => Z.of_nat (length w) :: map Z.of_N w) ws
+      end
+  end.
+
+Fixpoint zs_eqb0 (a b : list Z) : bool :=
+  match a, b with
+  | [], [] => true
+  | x :: a', y :: b' => (x =? y) && zs_eqb0 a' b'
+  | _, _ => false
+  end.
+(* tag 13: one observation of the search for a fact by its own words: input = position, answering position or -1, then the order
+   of the word indices | tag 14: the positions of the constants whose words are a phrase of the query language, given = computed *)
+Definition obs_find (input : list Z) : list Z :=
+  match input with
+  | p :: w :: idxs => observe_find (Z.to_nat p) (List.map Z.to_nat idxs) (if w <? 0 then None else Some (Z.to_nat w))
+  | _ => [-1]
+  end.
+Definition obs_typeable (input : list Z) : list Z :=
+  if zs_eqb0 input (List.map Z.of_N typeable_positions) then [1] else [0; Z.of_nat (length typeable_positions)].
+
 Definition run_case (tag : Z) (input : list Z) : list Z :=
   match tag with
   | 1 => obs_lex_parse (chars_of_zs input)
@@ -188,6 +219,9 @@ Definition run_case (tag : Z) (input : list Z) : list Z :=
   | 9 => obs_cli input
   | 10 => obs_parse_word input
   | 11 => obs_dbproto input
+  | 12 => obs_winner input
+  | 13 => obs_find input
+  | 14 => obs_typeable input
   | _ => [-1]
   end.
 
